@@ -14,7 +14,9 @@
 // placements x IDs x allow on/off/default; D breaking configurations x exclude-imports (the image pair
 // contains declarations that moved between files, so annotations with two different file locations);
 // E module in a sub-directory; F section shapes (which keys a section consists of x where it is written);
-// G ignore_only maps with overlapping keys x document order x map iteration seed.
+// G ignore_only maps with overlapping keys x document order x map iteration seed; H comment ignores on
+// every kind of statement an annotation is located on (file options, nested options, imports, rpcs, ...);
+// I documentation x directive line interleavings, compared with the image without the directive lines.
 package c06
 
 import (
@@ -178,6 +180,17 @@ func replay(raw json.RawMessage) (string, bool) {
 		partANesting(e)
 	case "deprecated":
 		partADeprecated(e)
+	case "comment-line":
+		only := stringSet{}
+		for _, id := range c.Use {
+			only[id] = true
+		}
+		sc, ok := e.lintScene(vc.Comments, []string{c.Version}, only)
+		base, ok2 := e.baseScene(vc.Comments, []string{c.Version}, only)
+		if !ok || !ok2 {
+			return "fixture does not build", false
+		}
+		e.crossImage(sc, base, []string{c.Version})
 	default: // judge, mono: the union-minus oracle on the recorded configuration and comment variant
 		if vc.MapSeed != nil {
 			setMapSeed(uint64(*vc.MapSeed), true)
@@ -212,7 +225,7 @@ func replay(raw json.RawMessage) (string, bool) {
 
 // violationCase is what a replay needs.
 type violationCase struct {
-	Oracle   string            `json:"oracle"` // select | unknown | nesting | deprecated | judge | mono
+	Oracle   string            `json:"oracle"` // select | unknown | nesting | deprecated | judge | mono | comment-line
 	Config   cfg               `json:"config"`
 	YAML     string            `json:"buf_yaml"`
 	Comments []comment         `json:"comments,omitempty"`
@@ -292,6 +305,8 @@ func run(r *evid.Run) {
 		f    func()
 	}{
 		{"C_comment_ignores", func() { partC(e, vnames) }},
+		{"H_comment_ignores_on_statements", func() { partH(e, vnames) }},
+		{"I_documentation_and_directive_lines", func() { partI(e, vnames) }},
 		{"E_subdir_module", func() { partE(e) }},
 		{"F_section_shapes", func() { partF(e, vnames) }},
 		{"G_overlapping_ignore_only_keys", func() { partG(e, vnames) }},
@@ -333,7 +348,8 @@ func run(r *evid.Run) {
 
 var requiredClauses = []string{
 	"select.cases", "select.use_category", "select.use_deprecated_rule", "select.use_deprecated_category", "select.except_removed_rule",
-	"select.default_rules_used", "unknown.rejected", "nesting.checked", "deprecated_equiv.checked",
+	"select.default_rules_used", "unknown.rejected", "unknown.other_type_id_rejected_use", "unknown.other_type_id_rejected_except",
+	"unknown.other_type_id_rejected_ignore_only", "nesting.checked", "deprecated_equiv.checked",
 	"lint.cases", "lint.except_removed_annotation", "lint.ignore_removed_annotation", "lint.ignore_only_removed_annotation",
 	"lint.comment_removed_annotation", "lint.import_file_had_singleton_candidates", "lint.union_of_two_or_more_rules",
 	"comment.own_suppressed", "comment.ancestor_suppressed", "comment.unrelated_not_suppressed", "comment.disallowed_not_suppressed",
@@ -593,6 +609,13 @@ func corruptions(id string) []string {
 	return out
 }
 
+func otherKind(kind string) string {
+	if kind == "lint" {
+		return "breaking"
+	}
+	return "lint"
+}
+
 func partAUnknown(e *env) {
 	r := e.r
 	seeds := map[string][]string{
@@ -601,9 +624,11 @@ func partAUnknown(e *env) {
 	}
 	type job struct {
 		version, kind, id, pos string
+		otherType              bool // the ID is a rule / category ID of the version, but only of the other rule type
 	}
 	var jobs []job
 	total := 0
+	otherType := map[string]int{}
 	for _, v := range allVersions {
 		for _, kind := range []string{"lint", "breaking"} {
 			for _, seed := range seeds[kind] {
@@ -611,13 +636,26 @@ func partAUnknown(e *env) {
 				total += len(cs)
 				for _, id := range cs {
 					for _, pos := range []string{"use", "except", "ignore_only"} {
-						jobs = append(jobs, job{v.Name, kind, id, pos})
+						jobs = append(jobs, job{v.Name, kind, id, pos, false})
 					}
+				}
+			}
+			// every ID that exists in this version for the other rule type only (breaking rule and category IDs
+			// in a lint section, lint IDs in a breaking section): not an ID of this type, hence unknown here
+			t := e.tables(v.Name, kind)
+			for _, id := range stringSet(t.AllIDs).sorted() {
+				if _, known := t.expand(id); known {
+					continue
+				}
+				otherType[v.Name+"/"+kind]++
+				for _, pos := range []string{"use", "except", "ignore_only"} {
+					jobs = append(jobs, job{v.Name, kind, id, pos, true})
 				}
 			}
 		}
 	}
 	r.Set("unknown_id_corruptions", total)
+	r.Set("unknown_ids_of_other_rule_type", otherType)
 	// tiny images so that Lint / Breaking can be asked too (the error must come before any rule runs)
 	img, _, err := buildPlain(e.ctx, map[string]string{"a/v1/x.proto": "syntax = \"proto3\";\npackage a.v1;\nmessage M {}\n"}, nil)
 	if err != nil {
@@ -627,9 +665,13 @@ func partAUnknown(e *env) {
 	r.ParallelFor(len(jobs), 0, func(i int) {
 		j := jobs[i]
 		t := e.tables(j.version, j.kind)
-		if t.AllIDs[j.id] {
+		if t.AllIDs[j.id] && !j.otherType {
 			e.cnt.add("unknown.corruption_is_a_known_id_skipped", 1)
 			return
+		}
+		suffix := ""
+		if j.otherType {
+			suffix = "/id-of-other-rule-type/" + e.tables(j.version, otherKind(j.kind)).classify(j.id)
 		}
 		c := cfg{Version: j.version, Type: j.kind}
 		switch j.pos {
@@ -649,18 +691,21 @@ func partAUnknown(e *env) {
 			e.cnt.add("unknown.also_asked_lint_or_breaking", 1)
 		}
 		if cerr == nil {
-			r.Violate("unknown-id/"+j.kind+"/"+j.pos+"/accepted-by-ConfiguredRules", "a corrupted rule/category ID was accepted",
+			r.Violate("unknown-id/"+j.kind+"/"+j.pos+"/accepted-by-ConfiguredRules"+suffix, "a corrupted rule/category ID (or an ID of the other rule type) was accepted",
 				violationCase{Oracle: "unknown", Config: c, YAML: c.yaml(), Detail: j.id})
 			return
 		}
 		if obs.ParseErr == "" && obs.Err == "" {
-			r.Violate("unknown-id/"+j.kind+"/"+j.pos+"/accepted-by-check", "a corrupted rule/category ID was accepted by Lint/Breaking",
+			r.Violate("unknown-id/"+j.kind+"/"+j.pos+"/accepted-by-check"+suffix, "a corrupted rule/category ID (or an ID of the other rule type) was accepted by Lint/Breaking",
 				violationCase{Oracle: "unknown", Config: c, YAML: c.yaml(), Detail: j.id})
 			return
 		}
 		e.cnt.add("unknown.rejected", 1)
 		e.cnt.add("unknown.rejected_"+j.pos, 1)
-		if i%97 == 0 {
+		if j.otherType {
+			e.cnt.add("unknown.other_type_id_rejected_"+j.pos, 1)
+		}
+		if i%97 == 0 || j.otherType {
 			r.Distinct("U|" + c.key())
 		}
 	})
